@@ -6,6 +6,7 @@ CONSTANTS Callers = {c1, c2, c3}
  FreshKey = FALSE
  MaxJunk = 1
  MaxClose = 0
+ MaxBad = 0
  Kinds = {"obj", "vec"}
  Dev = {}
 CHECK_DEADLOCK FALSE
